@@ -128,4 +128,34 @@ func init() {
 	}
 }
 
+func init() {
+	registry["C03"] = func(tier string) []*Job {
+		var js []*Job
+		expNames := []string{"none", "creating", "writing", "accessing", "custom"}
+		exps := []int{2, 3, 4}
+		if tier == "thorough" {
+			exps = []int{1, 2, 3, 4}
+		}
+		for _, exp := range exps {
+			refs := []int{0}
+			bounds := []int{0}
+			if tier == "thorough" {
+				refs = []int{0, 2}
+				bounds = []int{0, 1}
+			}
+			for _, ref := range refs {
+				for _, bd := range bounds {
+					j := mk(sprintf("c03.%s.r%d.b%d", expNames[exp], ref, bd), rootPkg, "ZZ_C03_ExpiredUnswept",
+						with(cfgParams(exp, ref, bd, 10, 1, 0), "op", -1), func(b *Bounds) { b.Unwind = 8 })
+					js = append(js, j)
+				}
+			}
+		}
+		j := mk("c03.canary", rootPkg, "ZZ_C03_ExpiredUnswept", with(cfgParams(2, 0, 0, 10, 1, 0), "op", 0, "canary", 1), func(b *Bounds) { b.Unwind = 8 })
+		j.Canary = "c03.canary"
+		js = append(js, j)
+		return js
+	}
+}
+
 func sprintf(f string, a ...interface{}) string { return fmt.Sprintf(f, a...) }
